@@ -51,8 +51,11 @@ fn main() {
         if line == "(reset)" {
             st = State::new();
             writeln!(out, "(reset)").unwrap();
+            out.flush().unwrap();
             continue;
         }
+        // everything printed so far must be out before a command that may abort the process
+        out.flush().unwrap();
         let cmd = parse(&line);
         let res = catch_unwind(AssertUnwindSafe(|| dispatch(&mut st, &cmd)));
         match res {
